@@ -34,8 +34,86 @@ def gen_box():
         if type(v) is not int or v < 0:
             raise Inexpressible("consts.%s is not a non-negative int: %r" % (n, v))
         L.append("def %s : Nat := %d" % (camel(n), v))
+    L += ["", "/-- observed on the live `Connection._unbox` (recording table and proxy factory, no I/O): for a package that",
+          "holds a REMOTE_REF in front of a LOCAL_REF — side by side and with the REMOTE_REF nested deeper — every table lookup",
+          "happens before the first proxy is created.  Proxy creation may run a nested serve() (HANDLE_INSPECT), so this",
+          "order decides whether a release notice travelling behind the package can overtake its LOCAL_REFs. -/",
+          "def localRefsResolvedFirst : Bool := %s" % ("true" if probe_unbox_order() else "false")]
     L += ["", "end Rpyc.Gen.Box", ""]
     return "\n".join(L)
+
+
+def probe_unbox_order():
+    """True: all `_local_objects[...]` lookups of a package precede the first `_netref_factory` call; False: a proxy
+    is created first (the one-pass, left-to-right order).  Anything else cannot be expressed."""
+    from rpyc.core import consts
+    from rpyc.core.protocol import Connection
+    from rpyc.core.service import VoidService
+
+    class Chan(object):
+        closed = False
+
+        def close(self):
+            pass
+
+    class Target(object):
+        pass
+
+    class Proxy(object):
+        ____refcount__ = 1
+
+    results = []
+    key = ("probe.Target", 1, 2)
+    far = ("probe.Unknown", 3, 4)
+    shapes = [
+        (consts.LABEL_TUPLE, ((consts.LABEL_REMOTE_REF, far), (consts.LABEL_LOCAL_REF, key))),
+        (consts.LABEL_TUPLE, ((consts.LABEL_TUPLE, ((consts.LABEL_VALUE, 1), (consts.LABEL_REMOTE_REF, far))),
+                              (consts.LABEL_TUPLE, ((consts.LABEL_LOCAL_REF, key),)))),
+    ]
+    for package in shapes:
+        events = []
+        conn = Connection(VoidService(), Chan())
+        conn._closed = True                      # the probe connection never talks and never closes anything
+        target = Target()
+
+        class Table(object):
+            def __getitem__(self, k):
+                events.append("lookup")
+                if k != key:
+                    raise KeyError(k)
+                return target
+
+            def clear(self):
+                pass
+        conn._local_objects = Table()
+        keep = []
+
+        def factory(id_pack):
+            events.append("create")
+            keep.append(Proxy())
+            return keep[-1]
+        conn._netref_factory = factory
+        try:
+            out = conn._unbox(package)
+        except Exception as ex:  # noqa
+            raise Inexpressible("_unbox of a (REMOTE_REF, LOCAL_REF) package raised %r in the order probe" % (ex,))
+        flat = []
+
+        def walk(v):
+            if type(v) is tuple:
+                for x in v:
+                    walk(x)
+            else:
+                flat.append(v)
+        walk(out)
+        if target not in flat or not any(isinstance(x, Proxy) for x in flat) or sorted(events) != ["create", "lookup"]:
+            raise Inexpressible("_unbox order probe: unexpected result %r / events %r" % (out, events))
+        results.append(events == ["lookup", "create"])
+    if all(results):
+        return True
+    if not any(results):
+        return False
+    raise Inexpressible("_unbox resolves LOCAL_REFs before proxy creation for some package shapes only: %r" % (results,))
 
 
 SECTIONS = [("Box.lean", gen_box)]
